@@ -25,9 +25,12 @@ META["text"] += ' (R6, N) no np.full_like / np.empty_like of a data-shaped array
 META["text"] += " R4 also classifies every in-place override by its controlling condition (strict versus non-strict comparison with 0 / N t). (R7, N) no statistic stores into, or augments in place, an array that can be the caller's sample."
 META["text"] += ' (R8, N) no method keeps state between calls (see C01.R8); the factor identity is decided per regime and per value of every other condition the history branches on.'
 META["text"] += ' R2 also: the u in the factors is installed from the same mvrs_to_data call as the data (= C06.R3). R5 also: alpha_mart and betting_mart derive the overall p-value from the history in the same way.'
+META["text"] += " (R9, N, frame condition on arguments) the test an assertion is given is configured from that contest's own parameters (g, bounds): a factory does not write into the option dicts it is handed (aud.ARG_EFFECTS over the Assertion methods)."
 
 
 def run(chk):
+    from .. import aud as _aud8
+    _aud8.argument_effects(chk, 'C12.R9', 'shangrla/core/Audit.py', "the test an assertion is given is configured from that contest's own parameters (g, bounds): a factory does not write into the option dicts it is handed", only=lambda q: q.startswith('Assertion.'))
     idx = chk.idx
     R.rule_stateless(chk, "C12.R8")  # first: its refutations stand even if a later rule cannot read the code
     r6_dtype(chk)  # (the lints as well)
